@@ -236,8 +236,14 @@ func (i *Interceptor) loop() {
 	queue := make([]packet, 0)
 	for {
 		select {
-		case now := <-ticker.C:
-			for len(queue) > 0 && i.limit.Budget(now) > 8*float64(queue[0].len()) {
+		case <-ticker.C:
+			for len(queue) > 0 {
+				// read the clock for every packet: a write can take long, and the
+				// limiter (whose rate may be changed meanwhile) must not see time go backwards
+				now := time.Now()
+				if i.limit.Budget(now) <= 8*float64(queue[0].len()) {
+					break
+				}
 				i.limit.AllowN(now, 8*queue[0].len())
 				var next packet
 				next, queue = queue[0], queue[1:]
